@@ -172,6 +172,14 @@ QualityFor(n, semis) ==      \* the quality q (if any) with Size([n, q]) = semis
 (* Chord symbols (property C16): semitones above the root                   *)
 ChordSymbols == {"", "m", "dim", "aug", "7", "M7", "maj7", "m7", "mM7", "m7b5", "dim7", "augM7",
                  "9", "m9", "M9", "maj9", "mM9", "sus4", "7sus4", "6", "m6", "add9", "sus2"}
+\* display symbols as code points, from the TLA+ strings of Theory!ChordSymbols
+SymChars == [s \in ChordSymbols |->
+   CASE s = "" -> <<>> [] s = "m" -> <<109>> [] s = "dim" -> <<100,105,109>> [] s = "aug" -> <<97,117,103>> [] s = "7" -> <<55>>
+     [] s = "M7" -> <<77,55>> [] s = "maj7" -> <<109,97,106,55>> [] s = "m7" -> <<109,55>> [] s = "mM7" -> <<109,77,55>>
+     [] s = "m7b5" -> <<109,55,98,53>> [] s = "dim7" -> <<100,105,109,55>> [] s = "augM7" -> <<97,117,103,77,55>> [] s = "9" -> <<57>>
+     [] s = "m9" -> <<109,57>> [] s = "M9" -> <<77,57>> [] s = "maj9" -> <<109,97,106,57>> [] s = "mM9" -> <<109,77,57>>
+     [] s = "sus4" -> <<115,117,115,52>> [] s = "7sus4" -> <<55,115,117,115,52>> [] s = "6" -> <<54>> [] s = "m6" -> <<109,54>>
+     [] s = "add9" -> <<97,100,100,57>> [] s = "sus2" -> <<115,117,115,50>>]
 ChordTones(sym) ==
   CASE sym = ""      -> {0, 4, 7}
     [] sym = "m"     -> {0, 3, 7}
